@@ -445,7 +445,15 @@ func c07Membership(cfg Config, res *Result) {
 	strs := []lit{{`"a"`, "sa"}, {`"b"`, "sb"}, {`""`, "s"}, {"s", "shello"}}
 	var cases []ProgCase
 	wants := map[string]string{}
-	ct := CtxTerm{Names: []string{"x", "s", "li", "ls"}, Vals: []VT{vInt(3), vStr("hello"), vList("int", vInt(1), vInt(3)), vList("string", vStr("a"), vStr("hello"))}}
+	smN := vSMap([]string{"a", "hello"}, []VT{vInt(1), vInt(2)})
+	smN.Rep = 1 // map[NStr]any
+	im64 := vIMap([]int64{1, 3}, []VT{vStr("one"), vStr("three")})
+	im64.Rep = 1 // map[int64]any
+	imU8 := vIMap([]int64{1, 3}, []VT{vStr("one"), vStr("three")})
+	imU8.Rep = 2 // map[uint8]any
+	ct := CtxTerm{Names: []string{"x", "s", "li", "ls", "sm", "smn", "im", "im64", "imu8", "u", "neg", "ps"},
+		Vals: []VT{vInt(3), vStr("hello"), vList("int", vInt(1), vInt(3)), vList("string", vStr("a"), vStr("hello")),
+			vSMap([]string{"a", "hello"}, []VT{vInt(1), vInt(2)}), smN, vIMap([]int64{1, 3}, []VT{vStr("one"), vStr("three")}), im64, imU8, vUint(3), vInt(-253), vPtr(vStr("a"))}}
 	add := func(src string, want bool) {
 		w := "False"
 		if want {
@@ -480,7 +488,10 @@ func c07Membership(cfg Config, res *Result) {
 	for _, c := range []struct {
 		src  string
 		want bool
-	}{{"1 in li", true}, {"x in li", true}, {"2 in li", false}, {`"a" in ls`, true}, {"s in ls", true}, {`"b" in ls`, false}, {"x in [li.0, li.1]", true}, {"2 in [li.0, li.1]", false}} {
+	}{{"\"a\" in sm", true}, {"s in sm", true}, {"\"b\" in sm", false}, {"\"a\" in smn", true}, {"s in smn", true}, {"\"b\" in smn", false}, {"ps in sm", true}, {"ps in smn", true},
+		{"1 in im", true}, {"x in im", true}, {"2 in im", false}, {"u in im", true}, {"1 in im64", true}, {"x in im64", true}, {"u in im64", true}, {"2 in im64", false},
+		{"1 in imu8", true}, {"x in imu8", true}, {"u in imu8", true}, {"neg in imu8", false}, {"259 in imu8", false}, {"\"1\" in im", false}, {"1 in sm", false},
+		{"1 in li", true}, {"x in li", true}, {"2 in li", false}, {`"a" in ls`, true}, {"s in ls", true}, {`"b" in ls`, false}, {"x in [li.0, li.1]", true}, {"2 in [li.0, li.1]", false}} {
 		add(c.src, c.want)
 	}
 	runProgCases(cfg, res, cases, "c07m", func(c ProgCase, o ImplOutcome) bool { return true },
